@@ -1,4 +1,4 @@
-import NeumannModel.Locks.Model
+import NeumannModel.Locks.CoordModel
 /- Helper lemmas for the lock-table / wait-for-graph properties (C12). Core Lean only. -/
 namespace Neumann.Locks
 
@@ -371,6 +371,127 @@ end Neumann.Locks
 
 namespace Neumann.Locks
 
+/-! ### `release_orphaned_locks` (the orphan sweep) on the lock table -/
+
+theorem sweepKey_locks (t : LockTable) (kt : Nat × Nat) (k : Nat) :
+    aGet (sweepKey t kt).locks k = if k = kt.1 then none else aGet t.locks k := by
+  unfold sweepKey
+  cases aGet t.txLocks kt.2 <;> simp only [aGet_aRemove]
+
+theorem sweepKey_fields (t : LockTable) (kt : Nat × Nat) :
+    (sweepKey t kt).nextHandle = t.nextHandle ∧ (sweepKey t kt).defaultTimeout = t.defaultTimeout := by
+  unfold sweepKey; cases aGet t.txLocks kt.2 <;> simp
+
+theorem sweepKey_nodup (t : LockTable) (kt : Nat × Nat)
+    (nd : (t.locks.map (·.1)).Nodup) (nd2 : (t.txLocks.map (·.1)).Nodup) :
+    ((sweepKey t kt).locks.map (·.1)).Nodup ∧ ((sweepKey t kt).txLocks.map (·.1)).Nodup := by
+  unfold sweepKey
+  cases aGet t.txLocks kt.2 with
+  | none => exact ⟨keys_aRemove_nodup _ _ nd, nd2⟩
+  | some ks =>
+    refine ⟨keys_aRemove_nodup _ _ nd, ?_⟩
+    simp only
+    by_cases e : (ks.filter (· != kt.1)).isEmpty
+    · simp only [e, ↓reduceIte]; exact keys_aRemove_nodup _ _ nd2
+    · simp only [e, Bool.false_eq_true, ↓reduceIte, keys_aModify]; exact nd2
+
+/-- an index entry `k` of `tx` survives one sweep step unless the step removes exactly `(k, tx)` -/
+theorem sweepKey_tx (t : LockTable) (kt : Nat × Nat) (tx k : Nat)
+    (h : ∃ ks0, aGet t.txLocks tx = some ks0 ∧ k ∈ ks0) (hne : ¬ (k = kt.1 ∧ tx = kt.2)) :
+    ∃ ks1, aGet (sweepKey t kt).txLocks tx = some ks1 ∧ k ∈ ks1 := by
+  obtain ⟨ks0, h0, hk⟩ := h
+  unfold sweepKey
+  cases hg : aGet t.txLocks kt.2 with
+  | none => exact ⟨ks0, h0, hk⟩
+  | some ks =>
+    simp only
+    by_cases e : tx = kt.2
+    · subst e
+      rw [h0] at hg; simp only [Option.some.injEq] at hg; subst hg
+      have hk1 : k ≠ kt.1 := fun e1 => hne ⟨e1, rfl⟩
+      have hmem : k ∈ ks0.filter (· != kt.1) := by
+        simp [List.mem_filter, hk, hk1]
+      have hne2 : (ks0.filter (· != kt.1)).isEmpty = false := by
+        cases hf : ks0.filter (· != kt.1) with
+        | nil => rw [hf] at hmem; simp at hmem
+        | cons a r => rfl
+      simp only [hne2, Bool.false_eq_true, ↓reduceIte, aGet_aModify, h0, Option.map_some]
+      exact ⟨_, rfl, hmem⟩
+    · by_cases e2 : (ks.filter (· != kt.1)).isEmpty
+      · simp only [e2, ↓reduceIte, aGet_aRemove, e]; exact ⟨ks0, h0, hk⟩
+      · simp only [e2, Bool.false_eq_true, ↓reduceIte, aGet_aModify, e]; exact ⟨ks0, h0, hk⟩
+
+theorem foldl_sweepKey_locks (oks : List (Nat × Nat)) (t : LockTable) (k : Nat) :
+    aGet (oks.foldl sweepKey t).locks k = if k ∈ oks.map (·.1) then none else aGet t.locks k := by
+  induction oks generalizing t with
+  | nil => simp
+  | cons a r ih =>
+    simp only [List.foldl_cons, ih, sweepKey_locks, List.map_cons, List.mem_cons]
+    by_cases h1 : k ∈ r.map (·.1)
+    · simp [h1]
+    · by_cases h2 : k = a.1 <;> simp [h1, h2]
+
+theorem foldl_sweepKey_fields (oks : List (Nat × Nat)) (t : LockTable) :
+    (oks.foldl sweepKey t).nextHandle = t.nextHandle ∧ (oks.foldl sweepKey t).defaultTimeout = t.defaultTimeout := by
+  induction oks generalizing t with
+  | nil => simp
+  | cons a r ih =>
+    simp only [List.foldl_cons]
+    have := sweepKey_fields t a
+    rw [(ih _).1, (ih _).2]; exact this
+
+theorem foldl_sweepKey_nodup (oks : List (Nat × Nat)) (t : LockTable)
+    (nd : (t.locks.map (·.1)).Nodup) (nd2 : (t.txLocks.map (·.1)).Nodup) :
+    ((oks.foldl sweepKey t).locks.map (·.1)).Nodup ∧ ((oks.foldl sweepKey t).txLocks.map (·.1)).Nodup := by
+  induction oks generalizing t with
+  | nil => exact ⟨nd, nd2⟩
+  | cons a r ih =>
+    have := sweepKey_nodup t a nd nd2
+    exact ih _ this.1 this.2
+
+theorem foldl_sweepKey_tx (oks : List (Nat × Nat)) (t : LockTable) (tx k : Nat)
+    (h : ∃ ks0, aGet t.txLocks tx = some ks0 ∧ k ∈ ks0) (hn : (k, tx) ∉ oks) :
+    ∃ ks1, aGet (oks.foldl sweepKey t).txLocks tx = some ks1 ∧ k ∈ ks1 := by
+  induction oks generalizing t with
+  | nil => exact h
+  | cons a r ih =>
+    simp only [List.mem_cons, not_or] at hn
+    simp only [List.foldl_cons]
+    apply ih _ _ hn.2
+    apply sweepKey_tx t a tx k h
+    rintro ⟨e1, e2⟩
+    exact hn.1 (by cases a; simp_all)
+
+theorem mem_orphanKeys (t : LockTable) (active : List Nat) (ps k tx : Nat) (nd : (t.locks.map (·.1)).Nodup) :
+    (k, tx) ∈ orphanKeys t active ps ↔
+      ∃ l, aGet t.locks k = some l ∧ l.tx = tx ∧ tx ∉ active ∧ l.acquiredAt < ps := by
+  unfold orphanKeys
+  simp only [List.mem_map, List.mem_filter, Bool.and_eq_true, Bool.not_eq_eq_eq_not, Bool.not_true,
+    List.contains_eq_mem, decide_eq_false_iff_not, decide_eq_true_eq, Prod.mk.injEq]
+  constructor
+  · rintro ⟨⟨a, l⟩, ⟨hm, h1, h2⟩, e1, e2⟩
+    simp only at e1 e2 h1 h2; subst e1; subst e2
+    exact ⟨l, mem_aGet_of_nodup _ _ _ nd hm, rfl, h1, h2⟩
+  · rintro ⟨l, hg, e, h1, h2⟩
+    subst e
+    exact ⟨(k, l), ⟨aGet_some_mem _ _ _ hg, h1, h2⟩, rfl, rfl⟩
+
+theorem mem_orphanKeys_fst (t : LockTable) (active : List Nat) (ps k : Nat) (nd : (t.locks.map (·.1)).Nodup) :
+    k ∈ (orphanKeys t active ps).map (·.1) ↔
+      ∃ l, aGet t.locks k = some l ∧ l.tx ∉ active ∧ l.acquiredAt < ps := by
+  constructor
+  · intro h
+    obtain ⟨⟨k', tx⟩, hm, e⟩ := List.mem_map.mp h
+    simp only at e; subst e
+    obtain ⟨l, h1, h2, h3, h4⟩ := (mem_orphanKeys t active ps k' tx nd).mp hm
+    exact ⟨l, h1, h2 ▸ h3, h4⟩
+  · rintro ⟨l, h1, h2, h3⟩
+    exact List.mem_map.mpr ⟨(k, l.tx), (mem_orphanKeys t active ps k l.tx nd).mpr ⟨l, h1, rfl, h2, h3⟩, rfl⟩
+
+end Neumann.Locks
+
+namespace Neumann.Locks
+
 /-! ### operation sequences, ghost grants, the inductive invariant -/
 
 /-- ghost record: transaction `tx` was granted `key` at time `at_` with timeout `to` and has not
@@ -391,6 +512,8 @@ inductive Op
   | cleanupExpired
   | advance (d : Nat)
   | serializeRestore
+  /-- `release_orphaned_locks(partition_start)` with `active` = the pending transaction ids -/
+  | sweep (active : List Nat) (partitionStart : Nat)
 deriving Repr
 
 structure Sys where
@@ -406,6 +529,13 @@ def ghostRelH (t : LockTable) (h : Nat) (g : Grant) : Bool :=
   | some l => !(l.handle == h && l.tx == g.tx)
   | none => true
 
+/-- a grant survives the orphan sweep unless the lock currently recorded for its key belongs to its
+    transaction and is swept (owner not active, acquired before the partition start) -/
+def ghostSweep (t : LockTable) (active : List Nat) (ps : Nat) (g : Grant) : Bool :=
+  match aGet t.locks g.key with
+  | some l => !(l.tx == g.tx && !(active.contains l.tx) && decide (l.acquiredAt < ps))
+  | none => true
+
 def step (s : Sys) : Op → Sys
   | .tryLock tx keys =>
     match tryLock s.t s.now tx keys with
@@ -419,6 +549,9 @@ def step (s : Sys) : Op → Sys
   | .cleanupExpired => { s with t := (cleanupExpired s.t s.now).1 }
   | .advance d => { s with now := s.now + d }
   | .serializeRestore => { s with t := restore (serialize s.t) s.t.nextHandle }
+  | .sweep active ps =>
+    { s with t := (orphanKeys s.t active ps).foldl sweepKey s.t
+             ghost := s.ghost.filter (ghostSweep s.t active ps) }
 
 def run (ops : List Op) (s : Sys) : Sys := ops.foldl step s
 
@@ -571,6 +704,38 @@ theorem inv_cleanupExpired (s : Sys) (hi : Inv s) : Inv (step s .cleanupExpired)
     have := (isExpired_iff l s.now).mp lh
     omega
 
+theorem inv_sweep (s : Sys) (active : List Nat) (ps : Nat) (hi : Inv s) : Inv (step s (.sweep active ps)) := by
+  simp only [step]
+  have hf := foldl_sweepKey_fields (orphanKeys s.t active ps) s.t
+  have hn := foldl_sweepKey_nodup (orphanKeys s.t active ps) s.t hi.nd hi.nd2
+  refine ⟨hn.1, hn.2, ?_, ?_⟩
+  · intro k l h
+    simp only [foldl_sweepKey_locks] at h
+    by_cases hk : k ∈ (orphanKeys s.t active ps).map (·.1)
+    · simp [hk] at h
+    · simp only [hk, ↓reduceIte] at h
+      obtain ⟨h1, h2, h3, h4, ks0, h5, h6⟩ := hi.lk k l h
+      have hno : (k, l.tx) ∉ orphanKeys s.t active ps :=
+        fun hm => hk (List.mem_map.mpr ⟨(k, l.tx), hm, rfl⟩)
+      obtain ⟨ks1, h7, h8⟩ := foldl_sweepKey_tx _ s.t l.tx k ⟨ks0, h5, h6⟩ hno
+      exact ⟨h1, by simp only [hf.1]; exact h2, by simp only [hf.2]; exact h3, h4, ks1, h7, h8⟩
+  · intro g hg
+    obtain ⟨hg1, hg2⟩ := List.mem_filter.mp hg
+    obtain ⟨g1, g2, g3⟩ := hi.gh g hg1
+    refine ⟨g1, by simp only [hf.2]; exact g2, ?_⟩
+    rcases g3 with g3 | ⟨l, l1, l2, l3⟩
+    · exact Or.inl g3
+    · right
+      refine ⟨l, ?_, l2, l3⟩
+      rw [foldl_sweepKey_locks]
+      have : g.key ∉ (orphanKeys s.t active ps).map (·.1) := by
+        intro hm
+        obtain ⟨l', e1, e2, e3⟩ := (mem_orphanKeys_fst s.t active ps g.key hi.nd).mp hm
+        rw [l1] at e1; simp only [Option.some.injEq] at e1; subst e1
+        simp [ghostSweep, l1, l2, e3] at hg2
+        exact e2 (l2 ▸ hg2)
+      simp [this, l1]
+
 theorem inv_advance (s : Sys) (d : Nat) (hi : Inv s) : Inv (step s (.advance d)) := by
   simp only [step]
   refine ⟨hi.nd, hi.nd2, ?_, ?_⟩
@@ -595,6 +760,7 @@ theorem inv_step (s : Sys) (op : Op) (hi : Inv s) : Inv (step s op) := by
   | cleanupExpired => exact inv_cleanupExpired s hi
   | advance d => exact inv_advance s d hi
   | serializeRestore => simp only [step, restore_serialize]; exact hi
+  | sweep active ps => exact inv_sweep s active ps hi
 
 theorem inv_run (ops : List Op) (s : Sys) (hi : Inv s) : Inv (run ops s) := by
   induction ops generalizing s with
